@@ -3641,6 +3641,36 @@ TABLE_EVALCT += [
     {"file": EV, "fn": "multiply_plain_inplace", "impl": "Evaluator", "lean": "ct_multiply_plain_plan", "model": "multiplyPlainPlan", "skeleton": SK_MUL_PLAIN,
      "panic_escape": True},
 ]
+# `multiply_plain_normal` (coefficient-form operands): the ROUTE (monomial shortcut vs generic NTT route, fast plain lift or not) and the CKKS
+# scale rule at both exits, as a plan.  The data steps are codes (TRUSTED reading: each listed call / loop only touches the data):
+# 10 add_uint_u64 (lift one coefficient), 11 RNS decompose, 12 negacyclic_multiply_mononomials_inplace_ps (per-modulus monomial),
+# 13 negacyclic_multiply_mononomial_inplace_ps, 20 lift loop (multi-precision), 21 decompose_array, 22 lift loop (fast: per modulus),
+# 23 ntt_p(temp), 24 ntt_lazy_ps(ciphertext), 25 dyadic products, 26 intt_ps (FULL inverse transform); the last entry is 100 + sc.
+MEXP = "plain.significant_coeff_count() - 1"
+SK_MUL_PLAIN_NORMAL = {
+    "sig": "fn multiply_plain_normal(nonzero: usize, mono_upper: bool, fast_lift: bool, n: usize, k: usize, scheme: SchemeType, ok_own: bool, ok_prod: bool) -> Vec<usize>",
+    "prologue": "let mut plan = vec![]; let mut sc: usize = 0;", "epilogue": "plan.push(100 + sc); plan",
+    "handles": [CTXS, CTXS + ".parms()", CTXS + ".parms().coeff_modulus()", CTXS + ".plain_upper_half_threshold()", CTXS + ".plain_upper_half_increment()",
+                CTXS + ".small_ntt_tables()", "encrypted.size()", "plain.coeff_count()", MEXP],
+    "exprs": {CTXS + ".parms().coeff_modulus().len()": "k", CTXS + ".parms().poly_modulus_degree()": "n", "plain.nonzero_coeff_count()": "nonzero",
+              "plain.data_at(%s) >= %s.plain_upper_half_threshold()" % (MEXP, CTXS): "mono_upper",
+              CTXS + ".qualifiers().using_fast_plain_lift": "fast_lift", CTXS + ".parms().scheme()": "scheme", _scale_ok("encrypted", CTXS): SC_OK},
+    "effects": {"util::add_uint_u64(%s.plain_upper_half_increment(), plain.data_at(%s), &$t)" % (CTXS, MEXP): "plan.push(10);",
+                CTXS + ".rns_tool().base_q().decompose(&$t)": "plan.push(11);",
+                "polymod::negacyclic_multiply_mononomials_inplace_ps(encrypted.data_mut(), &$t, %s, encrypted.size(), $n, %s.parms().coeff_modulus())" % (MEXP, CTXS): "plan.push(12);",
+                "polymod::negacyclic_multiply_mononomial_inplace_ps(encrypted.data_mut(), plain.data_at(%s), %s, encrypted.size(), $n, %s.parms().coeff_modulus())" % (MEXP, MEXP, CTXS): "plan.push(13);",
+                "encrypted.set_scale(encrypted.scale() * plain.scale())": "sc = sc + 1;",
+                "for $i in 0..plain.coeff_count()": "plan.push(20);",
+                CTXS + ".rns_tool().base_q().decompose_array(&$t)": "plan.push(21);",
+                "for $i in 0..$k": "plan.push(22);",
+                "polymod::ntt_p(&$t, $n, %s.small_ntt_tables())" % CTXS: "plan.push(23);",
+                "polymod::ntt_lazy_ps(encrypted.data_mut(), encrypted.size(), $n, %s.small_ntt_tables())" % CTXS: "plan.push(24);",
+                "for $i in 0..encrypted.size()": "plan.push(25);",
+                "polymod::intt_ps(encrypted.data_mut(), encrypted.size(), $n, %s.small_ntt_tables())" % CTXS: "plan.push(26);"}}
+TABLE_EVALCT += [
+    {"file": EV, "fn": "multiply_plain_normal", "impl": "Evaluator", "lean": "ct_multiply_plain_normal_plan", "model": "multiplyPlainNormalPlan", "skeleton": SK_MUL_PLAIN_NORMAL,
+     "panic_escape": True},
+]
 for _n, _sp in FILES:
     if _n == "EvalFns.lean" and "Heathcliff.Model.Scheme" not in _sp["imports"]: _sp["imports"] = _sp["imports"] + ["Heathcliff.Model.Scheme"]
 # ------------------------------------------------------------------------------------------------------------------------------------
